@@ -1,19 +1,356 @@
 package main
 
+import (
+	"fmt"
+	"go/token"
+	"go/types"
+	"strings"
+
+	"golang.org/x/tools/go/ssa"
+)
+
 func init() {
 	register(&Prop{
 		ID: "C18",
-		Decided: "wip",
-		NotDecided: "wip",
+		Decided: "(1) guarded-by: the mutable shared fields of Stream, the five windows, Watermark, cep.Engine, analyticFieldEngine, ExprBridge, FunctionRegistry, MemoryTableSource and tableStore are accessed under their mutex in all API-reachable code (writes exclusively), no field is accessed both through sync/atomic and plainly, and the lock-acquisition graph is acyclic with no re-acquisition of a held lock; (2) no user sink is invoked, directly or through a function that runs sinks synchronously, while a lock is held; no blocking channel operation without a cancel/timeout/default alternative is performed under a lock; (3) each go statement: blocking loops have a cancellation case, blocking operations have an alternative, WaitGroup.Add precedes the go (or is done by the registered adder), goroutines that can run sinks are joined by Stop; Start's stopped-check and lifecycle.Add are serialised with Stop's flag under startMu; (4) Stop: the CAS on stopped dominates close(done) (idempotent, close-once), teardown order close(done) -> Window.Stop -> dataChan=nil -> waitLifecycle -> cep.Stop -> Flush -> flush delivery -> tables.closeAll, the input channel is never closed, initChan closes are probe-guarded under the window lock; (5) Emit after Stop: every blocking send on the input buffer has a done arm; (6) panic containment: every sink invocation and processItem run under a deferred recover.",
+		NotDecided: "absence of data races in general (this is a lockset argument over a type-based lock abstraction, not a happens-before proof), bounded Stop latency, goroutine counts, the behaviour of the grace timeout, window trigger goroutines and Watermark.updateLoop being cancelled but not joined by Stop (they do not run sinks).",
+		Assumptions: []string{"lock identity is (struct type, mutex field): two objects of one type are not distinguished"},
 		Run: runC18,
 	})
 }
 
 func runC18(a *A) {
+	a.Rule("locks/guarded-by", 30, func() {
+		for _, s := range []struct{ rel, typ string }{
+			{"stream", "Stream"}, {"window", "TumblingWindow"}, {"window", "SlidingWindow"}, {"window", "SessionWindow"},
+			{"window", "CountingWindow"}, {"window", "GlobalWindow"}, {"window", "Watermark"}, {"cep", "Engine"},
+			{"stream", "analyticFieldEngine"}, {"functions", "ExprBridge"}, {"functions", "FunctionRegistry"},
+			{"stream", "MemoryTableSource"}, {"stream", "tableStore"},
+		} {
+			a.lockRules(s.rel, s.typ)
+		}
+	})
+	a.Rule("locks/atomic-mix", 10, func() {
+		for _, s := range []struct{ rel, typ string }{
+			{"stream", "Stream"}, {"window", "TumblingWindow"}, {"window", "SlidingWindow"}, {"window", "SessionWindow"},
+			{"window", "CountingWindow"}, {"window", "GlobalWindow"}, {"", "Streamsql"},
+		} {
+			a.ruleAtomicMix(a.Named(s.rel, s.typ))
+		}
+	})
+	a.Rule("locks/order", 1, func() { a.ruleLockOrder() })
 	a.Rule("locks/sink-under-lock", 1, func() { a.ruleSinkUnderLock() })
+	a.Rule("locks/blocking-under-lock", 1, func() { a.ruleBlockingUnderLock() })
 	a.Rule("golife/goroutines", 14, func() {
 		a.ruleGoroutines(map[string]string{
 			"(*stream.DataProcessor).startWindowProcessing$1": "(*stream.Stream).Start",
 		})
 	})
+	a.Rule("flow/start-stop-serialised", 3, func() {
+		start := a.Method("stream", "Stream", "Start")
+		stop := a.Method("stream", "Stream", "Stop")
+		L := a.Locks()
+		key := lockKey{"stream.Stream", "startMu"}
+		isStoppedOp := func(in ssa.Instruction, name string) bool {
+			c, ok := in.(*ssa.Call)
+			if !ok || c.Call.StaticCallee() == nil || c.Call.StaticCallee().Name() != name || len(c.Call.Args) == 0 {
+				return false
+			}
+			return isFieldOf(TermOf(c.Call.Args[0], nil), "stream.Stream", "stopped")
+		}
+		isLifeAdd := func(in ssa.Instruction) bool {
+			c, ok := in.(*ssa.Call)
+			if !ok || c.Call.StaticCallee() == nil || c.Call.StaticCallee().Name() != "Add" || len(c.Call.Args) == 0 {
+				return false
+			}
+			return isFieldOf(TermOf(c.Call.Args[0], nil), "stream.Stream", "lifecycle")
+		}
+		n := 0
+		allInstrs(start, func(in ssa.Instruction) {
+			if isLifeAdd(in) {
+				n++
+				_, held := L.Held(in)[key]
+				a.Check(held, fname(start)+"#add-under-startMu", in.Pos(), "lifecycle.Add runs under startMu", "lifecycle.Add is not under startMu: it can race with the Wait in Stop")
+			}
+		})
+		if n == 0 {
+			a.Bad(fname(start)+"#add-under-startMu", start.Pos(), "Start does not register its goroutines in lifecycle")
+		}
+		a.ruleDominatedBy(start, fname(start)+"#stopped-check-before-add", func(in ssa.Instruction) bool { return isStoppedOp(in, "LoadInt32") }, isLifeAdd,
+			"the stopped flag is tested before lifecycle.Add", "lifecycle.Add is not preceded by a test of the stopped flag: a Start after Stop would spawn unjoined goroutines")
+		cas := false
+		allInstrs(stop, func(in ssa.Instruction) {
+			if isStoppedOp(in, "CompareAndSwapInt32") {
+				cas = true
+				_, held := L.Held(in)[key]
+				a.Check(held, fname(stop)+"#flag-under-startMu", in.Pos(), "Stop sets the stopped flag under startMu", "Stop sets the stopped flag outside startMu: a concurrent Start can Add after Wait began")
+			}
+		})
+		if !cas {
+			a.Bad(fname(stop)+"#flag-under-startMu", stop.Pos(), "Stop does not claim the stopped flag with a compare-and-swap: it is not idempotent")
+		}
+	})
+	a.Rule("flow/stop-sequence", 8, func() { a.ruleStopSequence() })
+	a.Rule("flow/close-once", 4, func() { a.ruleCloses() })
+	a.Rule("flow/send-has-done-arm", 3, func() {
+		dc := a.FieldOf(a.Named("stream", "Stream"), "dataChan")
+		n := 0
+		for _, typ := range []string{"BlockingStrategy", "ExpansionStrategy", "DropStrategy"} {
+			fn := a.Method("stream", typ, "ProcessData")
+			for _, f := range a.bodyFuncs(fn) {
+				allInstrs(f, func(in ssa.Instruction) {
+					switch x := in.(type) {
+					case *ssa.Send:
+						if d, c := isDataChan(x.Chan, dc); d || c {
+							n++
+							a.Bad(fname(f)+"#send-has-done-arm", in.Pos(), "a bare blocking send on the input buffer: after Stop (the consumer is gone) an Emit would block forever")
+						}
+					case *ssa.Select:
+						sends := false
+						for _, st := range x.States {
+							if st.Dir == types.SendOnly {
+								if d, c := isDataChan(st.Chan, dc); d || c {
+									sends = true
+								}
+							}
+						}
+						if !sends {
+							return
+						}
+						n++
+						ok := !x.Blocking
+						for _, st := range x.States {
+							if st.Dir == types.RecvOnly && isFieldOf(TermOf(st.Chan, nil), "stream.Stream", "done") {
+								ok = true
+							}
+						}
+						a.Check(ok, fname(f)+"#send-has-done-arm", in.Pos(), "the send on the input buffer is non-blocking or has a done arm", "a blocking send on the input buffer has no done arm: an Emit concurrent with or after Stop can block forever")
+					}
+				})
+			}
+		}
+		if n == 0 {
+			a.Und("send-has-done-arm", token.NoPos, "no send on the input buffer found in the strategies")
+		}
+	})
+	a.Rule("flow/panic-containment", 4, func() {
+		si := a.sinkInfo()
+		for _, c := range si.calls {
+			fn := c.Parent()
+			ok := hasRecover(fn)
+			where := fname(fn)
+			// a helper closure invoked from a function that has the recover
+			if !ok && fn.Parent() != nil {
+				// all call sites of the closure are in functions with recover around them
+				ok = hasRecover(fn.Parent()) && false
+			}
+			a.Check(ok, "recover@"+where, c.Pos(), "the sink runs under a deferred recover in "+where, "a user sink is called in "+where+" without a deferred recover: a panicking sink takes the pipeline goroutine (and the process) down")
+		}
+		pi := a.Method("stream", "DataProcessor", "processItem")
+		a.Check(hasRecover(pi), "recover@"+fname(pi), pi.Pos(), "each row is processed under a deferred recover", "processItem has no deferred recover: a row that panics stops all later rows")
+	})
+}
+
+// ruleBlockingUnderLock: no blocking channel operation without alternative while a lock is held.
+func (a *A) ruleBlockingUnderLock() {
+	L := a.Locks()
+	reach := a.APIReach()
+	n, bad := 0, 0
+	for _, fn := range a.ModFuncs {
+		if !reach[fn] {
+			continue
+		}
+		allInstrs(fn, func(in ssa.Instruction) {
+			held := L.Held(in)
+			if len(held) == 0 {
+				return
+			}
+			what := ""
+			switch x := in.(type) {
+			case *ssa.Send:
+				what = "a blocking send"
+			case *ssa.UnOp:
+				if x.Op == token.ARROW && !x.CommaOk {
+					what = "a blocking receive"
+				} else if x.Op == token.ARROW {
+					what = "a blocking receive"
+				}
+			case *ssa.Select:
+				if x.Blocking {
+					alt := false
+					for _, st := range x.States {
+						if st.Dir == types.RecvOnly && (cancelLike(st.Chan) || timerLike(st.Chan) || strings.Contains(TermOf(st.Chan, nil).String(), "imeout")) {
+							alt = true
+						}
+					}
+					if !alt {
+						what = "a blocking select without cancel/timeout arm"
+					}
+				}
+			}
+			if what == "" {
+				if _, ok := in.(*ssa.Select); ok {
+					n++
+				}
+				return
+			}
+			n++
+			bad++
+			a.Bad("blocking-under-lock@"+fname(fn), in.Pos(), "%s is performed while %s is held: every other user of that lock waits on a channel peer", what, held)
+		})
+	}
+	if bad == 0 {
+		a.Ok("blocking-under-lock", token.NoPos, "%d channel operations under a lock, all non-blocking or with a cancel/timeout arm", n)
+	}
+}
+
+// ruleStopSequence: order of teardown in Stream.Stop.
+func (a *A) ruleStopSequence() {
+	fn := a.Method("stream", "Stream", "Stop")
+	S := a.Named("stream", "Stream")
+	dc := a.FieldOf(S, "dataChan")
+	isClose := func(field string) func(ssa.Instruction) bool {
+		return func(in ssa.Instruction) bool {
+			c, ok := in.(*ssa.Call)
+			if !ok {
+				return false
+			}
+			cc, ok := isBuiltinCall(c, "close")
+			return ok && isFieldOf(TermOf(cc.Args[0], nil), "stream.Stream", field)
+		}
+	}
+	invoke := func(name string, recvField string) func(ssa.Instruction) bool {
+		return func(in ssa.Instruction) bool {
+			c := callCommon(in)
+			if c == nil {
+				return false
+			}
+			if c.IsInvoke() && c.Method.Name() == name {
+				return recvField == "" || isFieldOf(TermOf(c.Value, nil), "stream.Stream", recvField)
+			}
+			if cal := c.StaticCallee(); cal != nil && cal.Name() == name && len(c.Args) > 0 {
+				return recvField == "" || strings.Contains(TermOf(c.Args[0], nil).String(), "."+recvField)
+			}
+			return false
+		}
+	}
+	stages := []stage{
+		{name: "close(done)", match: isClose("done")},
+		{name: "Window.Stop", match: invoke("Stop", "Window")},
+		{name: "dataChan=nil", match: func(in ssa.Instruction) bool {
+			st, ok := in.(*ssa.Store)
+			if !ok || !fieldAddrIs(st.Addr, dc) {
+				return false
+			}
+			k, ok := st.Val.(*ssa.Const)
+			return ok && k.Value == nil
+		}},
+		{name: "waitLifecycle", match: callOfMethod("stream", "Stream", "waitLifecycle", a)},
+		{name: "cep.Stop", match: invoke("Stop", "cep")},
+		{name: "engine.Flush", match: func(in ssa.Instruction) bool {
+			cal := staticCallee(in)
+			return cal != nil && cal.Name() == "Flush"
+		}},
+		{name: "emitCepFlushSync", match: callOfMethod("stream", "Stream", "emitCepFlushSync", a)},
+		{name: "tables.closeAll", match: func(in ssa.Instruction) bool {
+			cal := staticCallee(in)
+			return cal != nil && cal.Name() == "closeAll"
+		}},
+	}
+	a.ruleStageOrder(fn, stages)
+	// CAS dominates close(done)
+	n := a.ruleDominatedBy(fn, fname(fn)+"#cas-before-close", func(in ssa.Instruction) bool {
+		c, ok := in.(*ssa.Call)
+		return ok && c.Call.StaticCallee() != nil && c.Call.StaticCallee().Name() == "CompareAndSwapInt32"
+	}, isClose("done"), "close(done) runs only for the caller that won the compare-and-swap on stopped (close-once, Stop idempotent)", "close(done) is not guarded by the compare-and-swap on stopped: a second Stop panics on a closed channel")
+	if n == 0 {
+		a.Bad(fname(fn)+"#cas-before-close", fn.Pos(), "Stop does not close the done channel")
+	}
+	// and on the winning edge only
+	allInstrs(fn, func(in ssa.Instruction) {
+		if isClose("done")(in) {
+			ok := guardedByValue(in.Block(), func(v ssa.Value) bool {
+				c, ok := v.(*ssa.Call)
+				return ok && c.Call.StaticCallee() != nil && c.Call.StaticCallee().Name() == "CompareAndSwapInt32"
+			}, true)
+			a.Check(ok, fname(fn)+"#close-on-winning-edge", in.Pos(), "close(done) is on the edge where the CAS succeeded", "close(done) is reachable when the CAS on stopped failed")
+		}
+	})
+	// flush goes through the same projection as live matches
+	pc := a.Method("stream", "Stream", "projectCep")
+	okProj := false
+	allInstrs(fn, func(in ssa.Instruction) {
+		if stages[6].match(in) {
+			for _, l := range phiLeaves(callCommon(in).Args[1]) {
+				if c, ok := l.(*ssa.Call); ok && c.Call.StaticCallee() == pc {
+					okProj = true
+				}
+			}
+		}
+	})
+	a.Check(okProj, fname(fn)+"#flush-projected", fn.Pos(), "flushed matches go through projectCep like live matches", "flushed MATCH_RECOGNIZE rows are not projected by projectCep")
+}
+
+// ruleCloses: the input channel is never closed; closes of struct-field channels are once-guarded.
+func (a *A) ruleCloses() {
+	dc := a.FieldOf(a.Named("stream", "Stream"), "dataChan")
+	L := a.Locks()
+	nClose := 0
+	for _, fn := range a.ModFuncs {
+		if fn.Pkg != nil && strings.Contains(fn.Pkg.Pkg.Path(), "/examples/") {
+			continue
+		}
+		allInstrs(fn, func(in ssa.Instruction) {
+			c, ok := in.(*ssa.Call)
+			if !ok {
+				return
+			}
+			cc, ok := isBuiltinCall(c, "close")
+			if !ok {
+				return
+			}
+			t := TermOf(cc.Args[0], nil)
+			if d, cch := isDataChan(cc.Args[0], dc); d || cch {
+				a.Bad("close(dataChan)@"+fname(fn), in.Pos(), "the input channel is closed: a concurrent Emit panics on send to a closed channel (Stop must nil the reference instead)")
+				return
+			}
+			if t.Kind != "field" {
+				return // local channels (e.g. the drained signal of waitLifecycle)
+			}
+			nClose++
+			owner, f := t.LastField()
+			construct := fmt.Sprintf("close(%s.%s)@%s", owner, f, fname(fn))
+			switch {
+			case f == "initChan":
+				// probe-guarded: the close sits in the default arm of a select that receives from the same channel, under the window lock
+				probe := false
+				for _, g := range guardsOf(in.Block()) {
+					bo, ok := g.Cond.(*ssa.BinOp)
+					if !ok {
+						continue
+					}
+					if ex, ok := bo.X.(*ssa.Extract); ok {
+						if sel, ok := ex.Tuple.(*ssa.Select); ok && !sel.Blocking {
+							for _, st := range sel.States {
+								if st.Dir == types.RecvOnly && TermOf(st.Chan, nil).String() == t.String() {
+									probe = true
+								}
+							}
+						}
+					}
+				}
+				held := L.Held(in)
+				_, locked := held[lockKey{owner, "mu"}]
+				a.Check(probe && locked, construct, in.Pos(), "closed only after a non-blocking probe found it open, under "+owner+".mu", fmt.Sprintf("initChan is closed without the closed-probe under %s.mu (probe=%v, lockset=%s): Add and Stop can both close it (panic)", owner, probe, held))
+			case f == "done":
+				a.Ok(construct, in.Pos(), "closed once, behind the CAS on stopped (checked by flow/stop-sequence)")
+			default:
+				a.Und(construct, in.Pos(), "close of a struct-field channel that is not in the reviewed set (done, initChan): cannot tell whether it is once-guarded")
+			}
+		})
+	}
+	if nClose == 0 {
+		a.Und("close", token.NoPos, "no close of a struct-field channel found")
+	}
+	a.Ok("close(dataChan)", token.NoPos, "no close of Stream.dataChan anywhere in the module (producers observe nil instead)")
 }
